@@ -1044,3 +1044,255 @@ Proof.
   intros st OK. apply preprocess_decompose_proof. exists [[st]]. split; [|reflexivity].
   constructor; [apply preprocess_stmt_passthrough_proof; exact OK | constructor].
 Qed.
+
+(* ====================================================================================== *)
+(* 7. capstone: preprocess keeps the answer sets                                          *)
+(* ====================================================================================== *)
+Definition is_rule (st: stmt) : bool := match st with SRule _ _ _ => true | _ => false end.
+(* side condition, on rules only: no old-style aggregate in the body, no negated comparison chain and
+   no guard-less comparison where normalize_operators splits, no pool *)
+Definition preprocess_ok_stmt (st: stmt) : bool :=
+  match st with
+  | SRule _ _ _ => no_old_agg_rule st && cmp_ok_stmt st && pool_free_stmt st
+  | _ => true
+  end.
+
+Lemma in_cross2 {A B C} (f: A -> B -> C) xs ys z : In z (cross2 f xs ys) -> exists x y, z = f x y.
+Proof.
+  unfold cross2. intro I'. apply in_flat_map in I'. destruct I' as [x [_ I']].
+  apply in_map_iff in I'. destruct I' as [y [<- _]]. exists x, y. reflexivity.
+Qed.
+
+Lemma unpool_stmt_nonrule st q : is_rule st = false -> unpool_stmt st = Ok q -> forall st', In st' q -> is_rule st' = false.
+Proof.
+  intros NR E st' I'. unfold unpool_stmt in E. destruct (unpool_opaque st); [discriminate|]. injection E as <-.
+  destruct st as [line h b|line w p ts b|n a p|t b|k tx]; try discriminate.
+  - apply in_flat_map in I'. destruct I' as [b' [_ I']]. apply in_flat_map in I'. destruct I' as [w' [_ I']].
+    apply in_flat_map in I'. destruct I' as [p' [_ I']]. apply in_map_iff in I'. destruct I' as [ts' [<- _]]. reflexivity.
+  - destruct I' as [<-|[]]. reflexivity.
+  - apply in_cross2 in I'. destruct I' as [b' [t' ->]]. reflexivity.
+  - destruct I' as [<-|[]]. reflexivity.
+Qed.
+
+Lemma preprocess_stmt_nonrule st q : is_rule st = false -> preprocess_stmt st = Ok q ->
+  forall st', In st' q -> is_rule st' = false.
+Proof.
+  intros NR E. apply preprocess_stmt_ok in E. destruct E as (s1 & s2 & E1 & E2 & E3).
+  apply (unpool_stmt_nonrule (expand_comparisons s2) q); [|exact E3].
+  assert (N1: is_rule s1 = false).
+  { destruct st as [line h b|line w p ts b|n a p|t b|k tx]; try discriminate; simpl in E1;
+      try (injection E1 as <-; reflexivity).
+    destruct (replace_old_body b _); simpl in E1; try discriminate. injection E1 as <-. reflexivity. }
+  assert (N2: is_rule s2 = false).
+  { destruct s1 as [line h b|line w p ts b|n a p|t b|k tx]; try discriminate; simpl in E2;
+      try (injection E2 as <-; reflexivity).
+    destruct (_ && _); [discriminate|]. injection E2 as <-. reflexivity. }
+  destruct s2; try discriminate; reflexivity.
+Qed.
+
+Lemma preprocess_stmt_rule_eq line h b :
+  preprocess_ok_stmt (SRule line h b) = true ->
+  preprocess_stmt (SRule line h b) =
+  Ok [SRule line h (normalize_operators (map remove_bounds_bodyelem (map count_to_sum_bodyelem b)))].
+Proof.
+  intro OK. simpl in OK. apply andb_true_iff in OK. destruct OK as [OK PF]. apply andb_true_iff in OK. destruct OK as [NO CO].
+  unfold preprocess_stmt. simpl replace_old_aggregates_stm. rewrite (replace_old_body_no_old b _ NO).
+  simpl rbind. apply unpool_stmt_pool_free_proof.
+  unfold pool_free_stmt in *. apply andb_true_iff in PF. destruct PF as [A B].
+  apply andb_true_iff in B. destruct B as [B1 B2]. apply andb_true_iff. split.
+  - simpl in *. rewrite theory_texts_pipeline. exact A.
+  - rewrite B1. simpl. apply pool_free_pipeline. exact B2.
+Qed.
+
+Section Preprocess.
+Variable sym_lt : sym -> sym -> Prop.
+Hypothesis ord : sym_order sym_lt.
+Notation stmt_sat := (stmt_sat sym_lt).
+Notation equiv_all := (equiv_all sym_lt).
+
+Lemma nonrule_sat H T st : is_rule st = false -> stmt_sat H T st <-> True.
+Proof. destruct st; try discriminate; intros _; simpl; tauto. Qed.
+
+Theorem preprocess_rule_proof : forall line h b, preprocess_ok_stmt (SRule line h b) = true ->
+  exists r, preprocess_stmt (SRule line h b) = Ok [r] /\
+            forall H T, stmt_sat H T (SRule line h b) <-> stmt_sat H T r.
+Proof.
+  intros line h b OK. eexists. split; [apply preprocess_stmt_rule_eq; exact OK|].
+  simpl in OK. apply andb_true_iff in OK. destruct OK as [OK PF]. apply andb_true_iff in OK. destruct OK as [NO CO].
+  intros H T.
+  rewrite (proj2 (count_to_sum_rule_proof sym_lt line h b NO) H T).
+  rewrite (proj2 (remove_bounds_rule_proof sym_lt ord line h (map count_to_sum_bodyelem b)) H T).
+  apply (expand_comparisons_rule_proof sym_lt line h). rewrite cmp_ok_pipeline. exact CO.
+Qed.
+
+Lemma forall2_concat_equiv_all P Qs :
+  Forall2 (fun st q => forall H T, stmt_sat H T st <-> (forall st', In st' q -> stmt_sat H T st')) P Qs ->
+  equiv_all P (List.concat Qs).
+Proof.
+  intro F. apply stmts_equiv_equiv_all. intros H T _. induction F as [|st q P Qs E _ IH]; simpl; [tauto|].
+  split.
+  - intros A st' I'. apply in_app_iff in I'. destruct I' as [I'|I'].
+    + apply (proj1 (E H T)); [apply A; left; reflexivity | exact I'].
+    + apply (proj1 IH); [|exact I']. intros x Hx. apply A. right. exact Hx.
+  - intros A x [<-|Hx].
+    + apply (proj2 (E H T)). intros st' I'. apply A. apply in_app_iff. left. exact I'.
+    + apply (proj2 IH); [|exact Hx]. intros st' I'. apply A. apply in_app_iff. right. exact I'.
+Qed.
+
+Theorem preprocess_equiv_proof : forall P Q, forallb preprocess_ok_stmt P = true ->
+  preprocess P = Ok Q -> equiv_all P Q.
+Proof.
+  intros P Q OK E. apply preprocess_decompose_proof in E. destruct E as [Qs [F ->]].
+  apply forall2_concat_equiv_all. rewrite forallb_forall in OK.
+  induction F as [|st q P Qs E _ IH]; constructor.
+  - specialize (OK st (or_introl eq_refl)). intros H T. destruct (is_rule st) eqn:R.
+    + destruct st as [line h b| | | |]; try discriminate.
+      destruct (preprocess_rule_proof line h b OK) as [r [E' S]]. rewrite E' in E. injection E as <-.
+      rewrite (S H T). split; [intros A st' [<-|[]]; exact A | intro A; apply A; left; reflexivity].
+    + rewrite (nonrule_sat H T st R). split; [|tauto]. intros _ st' I'.
+      apply (nonrule_sat H T st'). apply (preprocess_stmt_nonrule st q R E st' I'). exact I.
+  - apply IH. intros x Hx. apply OK. right. exact Hx.
+Qed.
+End Preprocess.
+
+(* ====================================================================================== *)
+(* 8. the excluded case is really excluded: negated chains at statement level             *)
+(* ====================================================================================== *)
+Section NegChain.
+Variable sym_lt : sym -> sym -> Prop.
+Hypothesis ord : sym_order sym_lt.
+Definition negchain_rule : stmt :=
+  SRule 0 (HLit (Lit NoSign (ASym (TFun "a" [] false)))) [BLit (Lit Neg (ACmp negchain_t negchain_gs))].
+Definition empty_interp : interp := fun _ => False.
+
+(*  a :- not 1 < 2 < 1.   has no HT model with a false;   a :- not 1 < 2, not 2 < 1.   has one *)
+Theorem expand_comparisons_neg_chain_refuted_proof :
+  cmp_ok_stmt negchain_rule = false /\
+  ~ stmt_sat sym_lt empty_interp empty_interp negchain_rule /\
+  stmt_sat sym_lt empty_interp empty_interp (expand_comparisons negchain_rule).
+Proof.
+  split; [reflexivity|]. split.
+  - intro S. simpl in S. unfold Sat.rule_sat in S. destruct (S (fun _ => SInf)) as [S1 _].
+    assert (B: body_sat sym_lt (gvars_rule (HLit (Lit NoSign (ASym (TFun "a" [] false))))
+                                  [BLit (Lit Neg (ACmp negchain_t negchain_gs))])
+                 empty_interp empty_interp (fun _ => SInf) [BLit (Lit Neg (ACmp negchain_t negchain_gs))]).
+    { apply body_sat_one. simpl bodyelem_sat.
+      apply (proj1 (chain_split_neg_refuted_proof sym_lt ord _ _ _ _)). }
+    specialize (S1 B). simpl in S1. unfold Sat.sym_atom_sat in S1. simpl in S1. exact S1.
+  - simpl expand_comparisons. simpl. unfold Sat.rule_sat. intro s.
+    assert (NB: forall G X, ~ body_sat sym_lt G X empty_interp s
+                              (normalize_operators [BLit (Lit Neg (ACmp negchain_t negchain_gs))])).
+    { intros G X B. change (normalize_operators [BLit (Lit Neg (ACmp negchain_t negchain_gs))])
+        with (map BLit (split_cmp_lit Neg negchain_t negchain_gs) ++ []) in B.
+      rewrite app_nil_r in B. apply body_sat_blits in B.
+      exact (proj2 (chain_split_neg_refuted_proof sym_lt ord G X empty_interp s) B). }
+    split; intro B; exfalso; exact (NB _ _ B).
+Qed.
+End NegChain.
+
+(* ====================================================================================== *)
+(* 9. non-vacuity of the side conditions                                                  *)
+(* ====================================================================================== *)
+Local Open Scope string_scope.
+Definition vX := TVar "X". Definition vY := TVar "Y". Definition vZ := TVar "Z".
+Definition pX := Lit NoSign (ASym (TFun "p" [vX] false)).
+Definition ex_chain sg := Lit sg (ACmp vX [(CLt, vY); (CLe, vZ)]).
+Definition ex_body : list bodyelem :=
+  [ BLit pX;
+    BLit (ex_chain NoSign);                                   (* X < Y <= Z *)
+    BLit (ex_chain NegNeg);                                   (* not not X < Y <= Z *)
+    BLit (Lit Neg (ACmp vX [(CEq, vY)]));                     (* not X = Y *)
+    BCond pX [ex_chain NoSign];                               (* p(X) : X < Y <= Z *)
+    BLit (Lit NoSign (ABodyAgg None FCount [([vX], [pX; ex_chain NoSign])] (Some (CLe, TSym (SNum 3)))))
+                                                              (* #count { X : p(X), X < Y <= Z } <= 3 *)
+  ].
+Definition ex_rule : stmt := SRule 1 (HLit (Lit NoSign (ASym (TFun "q" [vY; vZ] false)))) ex_body.
+
+Example cmp_ok_nonvacuous :
+  cmp_ok_body ex_body = true /\ cmp_ok_stmt ex_rule = true /\
+  normalize_operators ex_body =
+  [ BLit pX;
+    BLit (Lit NoSign (ACmp vX [(CLt, vY)])); BLit (Lit NoSign (ACmp vY [(CLe, vZ)]));
+    BLit (Lit NegNeg (ACmp vX [(CLt, vY)])); BLit (Lit NegNeg (ACmp vY [(CLe, vZ)]));
+    BLit (Lit Neg (ACmp vX [(CEq, vY)]));
+    BCond pX [Lit NoSign (ACmp vX [(CLt, vY)]); Lit NoSign (ACmp vY [(CLe, vZ)])];
+    BLit (Lit NoSign (ABodyAgg None FCount
+            [([vX], [pX; Lit NoSign (ACmp vX [(CLt, vY)]); Lit NoSign (ACmp vY [(CLe, vZ)])])]
+            (Some (CLe, TSym (SNum 3))))) ].
+Proof. repeat split. Qed.
+Example cmp_ok_rejects : cmp_ok_lit (ex_chain Neg) = false /\ cmp_ok_lit (Lit NoSign (ACmp vX [])) = false.
+Proof. split; reflexivity. Qed.
+
+(* remove_unecessary_bounds needs no side condition; it does change statements *)
+Example remove_bounds_nonvacuous :
+  remove_unecessary_bounds
+    [SRule 1 (HLit pX) [BLit (Lit NoSign (ABodyAgg (Some (CLe, TSym SInf)) FSum [([vX], [pX])] (Some (CLe, vY))))]]
+  = Ok [SRule 1 (HLit pX) [BLit (Lit NoSign (ABodyAgg (Some (CGe, vY)) FSum [([vX], [pX])] None))]].
+Proof. reflexivity. Qed.
+
+Example no_old_agg_nonvacuous :
+  forallb no_old_agg_rule [ex_rule] = true /\ forallb no_old_agg_stmt [ex_rule] = true /\
+  replace_old_aggregates [SRule 1 (HLit pX) [BLit (Lit NoSign (ABodyAgg None FCount [([vX], [pX])] (Some (CLe, vY))))]]
+  = Ok [SRule 1 (HLit pX) [BLit (Lit NoSign (ABodyAgg None FSumPlus [([TSym (SNum 1); vX], [pX])] (Some (CLe, vY))))]].
+Proof. repeat split. Qed.
+Example no_old_agg_rejects : no_old_agg_bodyelem (BLit (Lit NoSign (AAgg None [(pX, [])] None))) = false.
+Proof. reflexivity. Qed.
+
+Example passthrough_nonvacuous :
+  passthrough_stmt (SShowSig "p" 1 true) = true /\
+  passthrough_stmt (SShowTerm (TFun "f" [vX] false) [BLit pX; BCond pX [ex_chain NoSign]]) = true /\
+  passthrough_stmt (SOther "ASTType.Program" "#program base.") = true /\
+  passthrough_stmt (SOther "ASTType.External" "#external p(X) : q(X).") = true /\
+  passthrough_stmt (SOther "ASTType.External" "#external p(1;2).") = false /\
+  passthrough_stmt (SShowTerm (TPool [vX; vY]) []) = false.
+Proof. repeat split. Qed.
+
+(* why "#show term : body." is only a pass-through without body aggregates: the model (as the Python)
+   normalises the bounds of body aggregates in #show bodies, too *)
+Example preprocess_show_term_changes :
+  let agg lg rg := BLit (Lit NoSign (ABodyAgg lg FSum [([vX], [pX])] rg)) in
+  pool_free_stmt (SShowTerm vY [agg None (Some (CLe, vY))]) = true /\
+  preprocess [SShowTerm vY [agg None (Some (CLe, vY))]] = Ok [SShowTerm vY [agg (Some (CGe, vY)) None]].
+Proof. split; reflexivity. Qed.
+
+Example preprocess_ok_nonvacuous :
+  preprocess_ok_stmt ex_rule = true /\
+  preprocess [ex_rule] =
+  Ok [SRule 1 (HLit (Lit NoSign (ASym (TFun "q" [vY; vZ] false))))
+       [ BLit pX;
+         BLit (Lit NoSign (ACmp vX [(CLt, vY)])); BLit (Lit NoSign (ACmp vY [(CLe, vZ)]));
+         BLit (Lit NegNeg (ACmp vX [(CLt, vY)])); BLit (Lit NegNeg (ACmp vY [(CLe, vZ)]));
+         BLit (Lit Neg (ACmp vX [(CEq, vY)]));
+         BCond pX [Lit NoSign (ACmp vX [(CLt, vY)]); Lit NoSign (ACmp vY [(CLe, vZ)])];
+         BLit (Lit NoSign (ABodyAgg (Some (CGe, TSym (SNum 3))) FSumPlus
+                 [([TSym (SNum 1); vX], [pX; Lit NoSign (ACmp vX [(CLt, vY)]); Lit NoSign (ACmp vY [(CLe, vZ)])])]
+                 None)) ]].
+Proof. split; reflexivity. Qed.
+
+(* ====================================================================================== *)
+(* 10. assumptions                                                                        *)
+(* ====================================================================================== *)
+Print Assumptions expand_comparisons_body_proof.
+Print Assumptions expand_comparisons_gvars_proof.
+Print Assumptions expand_comparisons_rule_proof.
+Print Assumptions expand_comparisons_stmt_proof.
+Print Assumptions expand_comparisons_prog_proof.
+Print Assumptions expand_comparisons_neg_chain_refuted_proof.
+Print Assumptions remove_bounds_body_proof.
+Print Assumptions remove_bounds_gvars_proof.
+Print Assumptions remove_bounds_rule_proof.
+Print Assumptions remove_bounds_stmt_proof.
+Print Assumptions remove_bounds_prog_proof.
+Print Assumptions count_to_sum_body_proof.
+Print Assumptions count_to_sum_rule_proof.
+Print Assumptions count_to_sum_stmt_proof.
+Print Assumptions count_to_sum_prog_proof.
+Print Assumptions replace_old_aggregates_total_proof.
+Print Assumptions preprocess_decompose_proof.
+Print Assumptions unpool_stmt_pool_free_proof.
+Print Assumptions preprocess_show_term_proof.
+Print Assumptions preprocess_stmt_passthrough_proof.
+Print Assumptions preprocess_passthrough_proof.
+Print Assumptions preprocess_passthrough_single_proof.
+Print Assumptions preprocess_rule_proof.
+Print Assumptions preprocess_equiv_proof.
